@@ -28,7 +28,7 @@ import weakref
 
 import coqrun
 import sigtools
-from sigtools import modifiers, specifiers, wrappers
+from sigtools import modifiers, specifiers, wrappers, _signatures
 
 LEVEL = 'proof'
 
@@ -155,6 +155,7 @@ def pool_for(desc):
         pool.append(('auto', (x,)))
         pool.append(('ann', (None, ((x, 300 + x),))))
     pool.append(('auto', ()))
+    pool.append(('ann', (400, ())))          # annotate with a return annotation only
     if len(named) >= 2:
         pool.append(('kwo', (named[-1], named[-2])))
         pool.append(('pos', (named[0], named[1])))
@@ -292,15 +293,39 @@ def order_case(fi, pool, shapes, idxs):
     w = run_order(fi, mods)
     if w is None:
         return {'adm': False, 'ans': (0, 0, 0)}
-    s1 = enc_sig(sigtools.signature(w))
+    ssig = sigtools.signature(w)
+    s1 = enc_sig(ssig)
     s2 = enc_sig(inspect.signature(w))
+    upg = upgraded_problem(ssig)
     fw = []
     real = []
     for a, k in shapes:
         fw += forward_of(w, a, k)
         real.append(real_call(w, a, k))
     return {'adm': True, 'ans': (1, H(s1), H(fw)), 'sig': s1, 'isig': s2, 'real': real,
-            'str': str(sigtools.signature(w))}
+            'str': str(ssig), 'upg': upg}
+
+
+_EMPTY_UPG = _signatures.UpgradedAnnotation.upgrade(inspect.Parameter.empty, None, 'x')
+
+
+def upgraded_problem(sig):
+    """upgraded_annotation / upgraded_return_annotation must carry the same value
+    as annotation / return_annotation (annotate stores pre-evaluated values)"""
+    try:
+        for p in sig.parameters.values():
+            if p.annotation is not p.empty and p.upgraded_annotation.source_value() != p.annotation:
+                return 'upgraded annotation of %s is %r' % (p.name, p.upgraded_annotation)
+            if p.annotation is p.empty and p.upgraded_annotation != _EMPTY_UPG:
+                return 'upgraded annotation of un-annotated %s is %r' % (p.name, p.upgraded_annotation)
+        if sig.return_annotation is not sig.empty:
+            if sig.upgraded_return_annotation.source_value() != sig.return_annotation:
+                return 'upgraded return annotation is %r' % (sig.upgraded_return_annotation,)
+        elif sig.upgraded_return_annotation != _EMPTY_UPG:
+            return 'upgraded return annotation of an un-annotated return is %r' % (sig.upgraded_return_annotation,)
+    except Exception as e:
+        return 'reading upgraded annotations raised %s(%s)' % (type(e).__name__, e)
+    return None
 
 
 def order_sets(ctx, fi, pool):
@@ -328,6 +353,10 @@ def decide_set(rep, fi, pool, idxs, results):
     """results: {perm: case}; direct decision of the property on the implementation"""
     adm = [(p, c) for p, c in results.items() if c['adm']]
     for p, c in adm:
+        if c.get('upg'):
+            rep.violation('C18:annotate-lost', '%s after %s: signature %s' % (
+                c['upg'], describe_order(fi, [pool[i] for i in p]), c['str']),
+                {'part': 'order', 'func': fi, 'perms': [list(p)], 'pool': idxs_pool(pool, p)})
         if c['sig'] != c['isig']:
             rep.violation('C18:order', 'sigtools.signature and inspect.signature differ: %s' %
                           describe_order(fi, [pool[i] for i in p]),
@@ -744,14 +773,18 @@ def _replay_order(r):
     for p, c in zip(r['perms'], res):
         if c['adm'] and c['sig'] != c['isig']:
             out.append('inspect/sigtools signatures differ for %s' % describe_order(fi, [pool[i] for i in p]))
+        if c['adm'] and c.get('upg'):
+            out.append('%s after %s' % (c['upg'], describe_order(fi, [pool[i] for i in p])))
         if c['adm']:
             want = {}
+            wret = None
             for i in p:
                 if pool[i][0] == 'ann':
                     want.update(dict(pool[i][1][1]))
+                    wret = pool[i][1][0] if pool[i][1][0] is not None else wret
             s = c['sig']
             got = dict((s[j], s[j + 3] - 1) for j in range(0, len(s) - 2, 4))
-            if any(got.get(k) != v for k, v in want.items()):
+            if any(got.get(k) != v for k, v in want.items()) or (wret is not None and s[-1] != wret + 1):
                 out.append('annotation not advertised after %s: %s' % (describe_order(fi, [pool[i] for i in p]), c['str']))
     if len(res) == 2 and res[0]['adm'] and res[1]['adm'] and (
             res[0]['sig'] != res[1]['sig'] or res[0]['real'] != res[1]['real']):
